@@ -5,6 +5,10 @@
 //!    because it calls `<[u8]>::serialize`, or a byte string if it called `serialize_bytes`) and the kind its
 //!    `impl Deserialize` READS (`Vec::<u8>::deserialize` = a sequence).  MessagePack readers take either for the other,
 //!    the CBOR reader does not: the two must agree, which is a theorem over these generated constants.
+//!  * the codec's read limits (`REQUEST_SIZE_MAXIMUM` / `RESPONSE_SIZE_MAXIMUM` of the libp2p-request-response version locked in
+//!    Cargo.lock, read from the cargo registry's copy of its source; checked there: the readers `io.take(..)` exactly these,
+//!    the writers check no size) and `MAX_RECORDS_COUNT` of ant-networking's record store (how many addresses one honest
+//!    `Cmd::Replicate` can carry);
 //! Every other shape is a refusal (UNTRANSLATABLE), never a guess.
 use crate::util::*;
 use quote::ToTokens;
@@ -165,6 +169,75 @@ fn codec(repo: &PathBuf) -> Result<&'static str, String> {
     Err(format!("{rel}: struct NodeBehaviour not found"))
 }
 
+/// the version of a package pinned in /repo/Cargo.lock (exactly one entry expected)
+fn locked_version(repo: &PathBuf, pkg: &str) -> Result<String, String> {
+    let lock = std::fs::read_to_string(repo.join("Cargo.lock")).map_err(|e| format!("Cargo.lock: {e}"))?;
+    let needle = format!("name = \"{pkg}\"");
+    let mut found: Vec<String> = vec![];
+    let mut lines = lock.lines();
+    while let Some(l) = lines.next() {
+        if l.trim() == needle {
+            if let Some(v) = lines.next().and_then(|v| v.trim().strip_prefix("version = \"")).and_then(|v| v.strip_suffix('"')) {
+                found.push(v.to_string());
+            }
+        }
+    }
+    match found.as_slice() {
+        [v] => Ok(v.clone()),
+        _ => Err(format!("Cargo.lock: {} entries for {pkg} ({found:?}), expected one", found.len())),
+    }
+}
+
+/// `REQUEST_SIZE_MAXIMUM` / `RESPONSE_SIZE_MAXIMUM` of the cbor codec in the locked libp2p-request-response (the codec object
+/// ant-networking instantiates with `cbor::Behaviour::new`, which leaves no way to change them), read from the vendored source
+/// in the cargo registry; plus the facts the size theorems rest on: the readers cut the stream with `io.take(<that constant>)`
+/// and the writers have no size check at all (they call `to_vec` and `write_all`, nothing else mentions the constants).
+fn codec_limits(repo: &PathBuf) -> Result<(u128, u128), String> {
+    let ver = locked_version(repo, "libp2p-request-response")?;
+    let home = std::env::var("CARGO_HOME").map(PathBuf::from).or_else(|_| std::env::var("HOME").map(|h| PathBuf::from(h).join(".cargo"))).map_err(|_| "neither CARGO_HOME nor HOME is set".to_string())?;
+    let src = home.join("registry").join("src");
+    let mut hits: Vec<PathBuf> = vec![];
+    for e in std::fs::read_dir(&src).map_err(|e| format!("{}: {e}", src.display()))? {
+        let p = e.map_err(|e| e.to_string())?.path().join(format!("libp2p-request-response-{ver}")).join("src").join("cbor.rs");
+        if p.exists() {
+            hits.push(p);
+        }
+    }
+    let path = match hits.as_slice() {
+        [p] => p.clone(),
+        _ => return Err(format!("libp2p-request-response-{ver}/src/cbor.rs: found {} copies under {}", hits.len(), src.display())),
+    };
+    let rel = format!("libp2p-request-response-{ver}/src/cbor.rs");
+    let file = parse_file(&path)?;
+    let codec = file
+        .items
+        .iter()
+        .find_map(|it| match it {
+            syn::Item::Mod(m) if m.ident == "codec" => m.content.as_ref().map(|c| &c.1),
+            _ => None,
+        })
+        .ok_or_else(|| format!("{rel}: mod codec not found"))?;
+    let inner = syn::File { shebang: None, attrs: vec![], items: codec.clone() };
+    let rq = const_value(&inner, "REQUEST_SIZE_MAXIMUM").map_err(|e| format!("{rel}: {e}"))?;
+    let rs = const_value(&inner, "RESPONSE_SIZE_MAXIMUM").map_err(|e| format!("{rel}: {e}"))?;
+    // where the constants are used: exactly once each, as the argument of `io.take(..)` in the matching reader
+    for (f, c) in [("read_request", "REQUEST_SIZE_MAXIMUM"), ("read_response", "RESPONSE_SIZE_MAXIMUM")] {
+        let func = impl_fn(&inner, "Codec", Some("Codec"), f).map_err(|e| format!("{rel}: {e}"))?;
+        let body = toks(&func.block);
+        if !body.contains(&format!("io.take({c}).read_to_end(")) {
+            return Err(format!("{rel}: {f} does not cut the stream with io.take({c})"));
+        }
+    }
+    for f in ["write_request", "write_response"] {
+        let func = impl_fn(&inner, "Codec", Some("Codec"), f).map_err(|e| format!("{rel}: {e}"))?;
+        let body = toks(&func.block);
+        if body.contains("SIZE_MAXIMUM") || body.contains(".len()") {
+            return Err(format!("{rel}: {f} looks at the size of what it writes (a write-side limit is not modelled)"));
+        }
+    }
+    Ok((rq, rs))
+}
+
 pub fn generate(repo: &PathBuf) -> Result<String, String> {
     let lib = parse_file(&repo.join("ant-protocol/src/lib.rs"))?;
     let ser = ser_kind(&lib)?;
@@ -177,6 +250,12 @@ pub fn generate(repo: &PathBuf) -> Result<String, String> {
     s.push_str(&format!("/-- `NodeBehaviour::request_response` (ant-networking/src/driver.rs): the codec `Request`/`Response` travel through -/\ndef messageCodec : Codec := {cd}\n"));
     s.push_str(&format!("/-- `impl Serialize for PrettyPrintRecordKey`: what it writes -/\ndef ppkSerKind : SerdeKind := {ser}\n"));
     s.push_str(&format!("/-- `impl Deserialize for PrettyPrintRecordKey`: what it reads -/\ndef ppkDeKind : SerdeKind := {de}\n"));
+    let (rq, rs) = codec_limits(repo)?;
+    s.push_str(&format!("/-- `REQUEST_SIZE_MAXIMUM` of the locked libp2p-request-response cbor codec: `read_request` reads `io.take(this)`; `write_request` has no size check -/\ndef requestSizeMaximum : Nat := {rq}\n"));
+    s.push_str(&format!("/-- `RESPONSE_SIZE_MAXIMUM`: `read_response` reads `io.take(this)`; `write_response` has no size check -/\ndef responseSizeMaximum : Nat := {rs}\n"));
+    let store = parse_file(&repo.join("ant-networking/src/record_store.rs"))?;
+    let max_records = const_value(&store, "MAX_RECORDS_COUNT").map_err(|e| format!("ant-networking/src/record_store.rs: {e}"))?;
+    s.push_str(&format!("/-- `MAX_RECORDS_COUNT` (ant-networking/src/record_store.rs): how many records a node holds at most, and so how many\naddresses `try_interval_replication` puts into ONE `Cmd::Replicate` (it sends all of `record_addresses_ref()`) -/\ndef maxRecordsCount : Nat := {max_records}\n"));
     s.push_str("end SafeNet.Gen.WireCodec\n");
     Ok(s)
 }
